@@ -475,6 +475,59 @@ def work_twins(payload, skip, report):
     return acc
 
 
+# --- the pipe spelling of a parser function ({{#if|c|a|b}}) is the colon spelling ({{#if:c|a|b}}) ------------------
+PIPE_FNS = [("#if", 3), ("#ifeq", 4), ("#switch", 3), ("#if", 1)]     # (only names with '#' have the pipe spelling)
+PIPE_ARGS = ["{{s}}", "{{u|a}}", "x", "{{w|{{s}}}}", ""]
+
+
+def work_pipe(payload, skip, report):
+    """Differential: both spellings give the same text and the same hook calls under every configuration."""
+    acc = Acc(PROP)
+    ctxs = {None: make_ctx(), "wikipedia": make_ctx("wikipedia")}
+    i = 0
+    for (fn, arity), pre, te, pf, hooks in itertools.product(PIPE_FNS, (True, False), (None, [], ["u"], ["s", "u", "w"]), (True, False), (False, True)):
+        for args in itertools.product(PIPE_ARGS, repeat=arity):
+            if arity > 2 and len(set(args)) > 3:
+                continue
+            if not args[0]:
+                continue     # "{{#if:|..." / "{{#if||...": the empty first argument is written differently in the two spellings
+            if pre and (te is None or not {"s", "u", "w"} <= set(te)):
+                # under a selection the colon spelling's first argument is part of the name segment and follows the selection,
+                # all other arguments are consumed by the function (adopted reading 8.3): only comparable when nothing is left out
+                continue
+            report(i)
+            i += 1
+            colon = "{{" + fn + ":" + "|".join(args) + "}}"
+            pipe = "{{" + fn + "|" + "|".join(args) + "}}"
+            res = []
+            for text in (colon, pipe):
+                calls = []
+
+                def tf(name, a):
+                    calls.append((name, tuple(sorted(a.items(), key=str))))
+
+                ctx = ctxs[None]
+                ctx.start_page("Tt")
+                try:
+                    out = ctx.expand(text, pre_expand=pre, templates_to_expand=None if te is None else set(te), expand_parserfns=pf,
+                                     template_fn=tf if hooks else None)
+                except Exception as e:
+                    out = "EXC " + type(e).__name__ + ": " + str(e)[:80]
+                res.append((out, sorted(calls, key=str)))
+            acc.case()
+            acc.distinct("configs", ("pipe", pipe, pre, te, pf, hooks))
+            case = {"page": pipe, "config": {"pre_expand": pre, "templates_to_expand": te, "expand_parserfns": pf, "hooks": hooks}}
+            if res[0][0] != res[1][0]:
+                acc.violation("pipe_spelling_equals_colon_spelling", case, res[1][0], res[0][0])
+            elif res[0][1] != res[1][1]:
+                acc.violation("template_fn_once_per_expanded_call", case, res[1][1], res[0][1])
+            if i % 503 == 0:
+                acc.sample(case)
+    for c in ctxs.values():
+        close_ctx(c)
+    return acc
+
+
 def replay(case):
     """Replays one (page text, configuration) case; the page is re-found in the generated page list by its text."""
     ctx = make_ctx(case["config"].get("ctx"))
@@ -525,6 +578,8 @@ def main(run):
         run.acc.merge(acc)
     for cid, acc, hung in run_chunks(work_twins, [("twins",)], nproc=1, case_timeout=60):
         run.acc.merge(acc)
+    for cid, acc, hung in run_chunks(work_pipe, [("pipe",)], nproc=1, case_timeout=60):
+        run.acc.merge(acc)
     cov = {
         "distinct_nontrivial": len(run.acc.sets.get("configs", ())),
         "pages": len(pages(run.tier)),
@@ -540,6 +595,7 @@ def main(run):
         "selection rule taken from the expand() docstring: under pre_expand a template is expanded iff it exists, is not in templates_to_not_expand and is flagged need_pre_expand or in templates_to_expand; without pre_expand everything is expanded",
         "computed names: %d pages whose call name is produced by another call (5 name shapes x 5 argument lists x 7 selections x pre_expand x hooks) against a 30-line reference written for that family" % (len(NAME_PARTS) * len(NAME_ARGS) * len(NAME_SETS) * 4),
         "escaped twins: every sequence of 2..3 forms out of {live, <nowiki/> after the first brace, <nowiki/> before the last brace} of one construct (call, parameter, link) on one page, in one text and as successive expand() calls, x selection x hooks",
+        "pipe spelling of parser functions: #if / #ifeq / #switch with every argument vector over 5 argument forms, compared with the colon spelling under every selection x expand_parserfns x hooks (differential)",
         "expand_invoke: a dedicated slice (5 pages with #invoke in bodies / arguments / siblings x switch x pre_expand x hook x repeated calls) with hand-written expectations",
     ]
     return run.finish(cov, assumptions, replay_fn=replay)
